@@ -90,7 +90,7 @@ def gen_pv_case(rng, t, inp, cut_prob=0.5, paint_prob=0.6):
     return pt, pieces, l1 | l2
 
 
-HOSTILE_MODES = ["perturb", "perturb", "arbitrary", "dropdup", "overlap", "tagnoise", "holes", "holes"]
+HOSTILE_MODES = ["perturb", "perturb", "arbitrary", "dropdup", "overlap", "tagnoise", "holes", "holes", "nested", "nested"]
 
 
 def gen_hostile(rng, t, inp, mode=None):
@@ -150,6 +150,18 @@ def gen_hostile(rng, t, inp, mode=None):
             st2 = max(1, st + d1)
             en2 = max(st2, en + d2)
             baits.append((sn, st2, en2))
+    if mode == "nested":
+        # an honourable map plus one or two extra baits lying inside an existing piece (a region pasted twice):
+        # contigs at the ends of the inner bait are terminal there and interior in the outer piece
+        baits = [(pc["s"], pc["start"], pc["end"]) for pc in pieces]
+        big = [pc for pc in pieces if pc["b"] - pc["a"] >= 5]
+        for _ in range(rng.randint(1, 2)):
+            if not big:
+                break
+            pc = rng.choice(big)
+            a = rng.randint(pc["a"], pc["b"] - 2)
+            b = rng.randint(a + 2, pc["b"]) if rng.random() < 0.7 else min(pc["b"] + rng.randint(0, 3), a + rng.randint(2, 6))
+            baits.append((pc["s"], math.floor(a * t) + 1, max(math.floor(a * t) + 1, math.floor(b * t))))
     rng.shuffle(baits)
     tags_pool = ["Contaminant", "Haplotig", "Unloc", "FalseDuplicate", "Target", "X", "Hap1", "Hap2", "Primary", "Singleton", "Cut"]
     noise = 0.0 if mode != "tagnoise" else 0.12
